@@ -16,6 +16,10 @@ pub enum Ev {
   Announce(u8, u8),
   /// liveness side channel (any message from p): DiscoveryDB::participant_is_alive
   Alive(u8),
+  /// the same life sign arriving as what it is on the wire: p's SPDP DATA once more (same sequence number),
+  /// through the real MessageReceiver and its side channel; true: addressed to the SPDP reader explicitly,
+  /// false: to ENTITYID_UNKNOWN
+  AliveWire(u8, bool),
   AdvanceMs(u64),
   Cleanup,
   /// explicit SPDP dispose
@@ -101,8 +105,11 @@ impl Model for M {
           m.lease = LEASES[*l as usize];
           m.last = now;
         }
-        Ev::Alive(p) => {
-          sim.alive(*p);
+        Ev::Alive(p) | Ev::AliveWire(p, _) => {
+          match ev {
+            Ev::AliveWire(_, explicit) => sim.alive_by_wire(*p, *explicit),
+            _ => sim.alive(*p),
+          }
           let m = &mut mp[*p as usize];
           if m.known {
             m.last = now;
@@ -201,6 +208,11 @@ impl Model for M {
         next.push(Ev::Announce(p, l));
       }
       next.push(Ev::Alive(p));
+      next.push(Ev::AliveWire(p, false));
+      if self.max_advances > 4 {
+        // (thorough tier only)
+        next.push(Ev::AliveWire(p, true));
+      }
       let m = &mp[p as usize];
       if m.known {
         next.push(Ev::Dispose(p));
